@@ -10,5 +10,5 @@ const (
 )
 
 var registry = []*HarnessSpec{
-	{Prop: "C05", Name: "zzH05a", Pkg: pkgCorerad, Tier: "quick", Bounds: "i any int>=0; (min,max) any ns-granular pair with 4s<=max<=1800s, 3s<=min<=max; Int63n any value in [0,n)"},
+	{Prop: "C05", Name: "zzH05a", Pkg: pkgCorerad, Extra: []string{pkgConfig}, Tier: "quick", Bounds: "i any int>=0; (min,max) any ns-granular pair with 4s<=max<=1800s, 3s<=min<=max; Int63n any value in [0,n)"},
 }
